@@ -165,6 +165,21 @@ func runC16(c C16Case) string {
 		return fmt.Sprintf("\ntype: %s\nbyPointer: %v\nvalue denotes: %s", tstr, c.ByPtr, want.String())
 	}
 	return drive.Guard2(func() string {
+		if len(tstr)%4 == 0 {
+			// a Marshal call that fails half way (a channel behind other fields) must
+			// not leave anything behind for the calls that follow
+			bad := struct {
+				A int
+				S string
+				C chan int
+			}{7, "left-over", make(chan int)}
+			if out, err := ion.MarshalText(bad); err == nil {
+				return fmt.Sprintf("MarshalText of a struct holding a channel succeeded: %q", out)
+			}
+			if out, err := ion.MarshalBinary(&bad); err == nil {
+				return fmt.Sprintf("MarshalBinary of a struct holding a channel succeeded: % x", out)
+			}
+		}
 		text1, err := ion.MarshalText(arg)
 		if err != nil {
 			return fmt.Sprintf("MarshalText fails: %v", err) + desc()
